@@ -298,6 +298,27 @@ def make_methods(log: Log, is_async: bool) -> Dict[str, Callable[..., Any]]:
     fac['js_checked'] = js_checked
     fac['js_loose'] = js_loose
 
+    # a schema with a sub-schema that has an identifier of its own (`$id`: references inside it are relative to THAT), a
+    # reference elsewhere, and a user-supplied format check that takes its time (a lookup, in real life) and lets other threads run
+    slow_formats = _js.FormatChecker(formats=())
+
+    @slow_formats.checks('zq7-slow')
+    def _slow_format(value):
+        import time as _time
+        _time.sleep(0.002)
+        return True
+
+    @shared_validator.validate(schema={
+        'type': 'object', 'definitions': {'pos': {'type': 'integer', 'minimum': 0}},
+        'properties': {'a': {'$ref': '#/definitions/pos'},
+                       'b': {'$id': 'file:///zq7-no-such-dir/schemas/b.json', 'type': 'object', 'properties': {'t': {'type': 'string', 'format': 'zq7-slow'}}}},
+        'required': ['a']}, format_checker=slow_formats)
+    def js_ref(a, b=None):
+        log.calls.append(('js_ref', (a, b), {}))
+        return ['js_ref', a, b]
+
+    fac['js_ref'] = js_ref
+
     # a schema that says which draft it is written in: under draft-04 the number 3.0 is not an integer
     @shared_validator.validate(schema={'$schema': 'http://json-schema.org/draft-04/schema#', 'type': 'object',
                                        'properties': {'n': {'type': 'integer'}}, 'required': ['n']})
@@ -573,7 +594,7 @@ def make_broken_view(log: Log, is_async: bool):
 
 METHOD_NAMES = ('js_checked', 'js_loose', 'slowfail', 'byid', 'wrapped', 'whoami', 'ctxp', 'slow', 'fac1', 'fac2', 'ok', 'noargs', 'echo', 'kwonly', 'rpcerr', 'typed', 'boom', 'ctxm', 'view.vm', 'typedctor', 'raiselib', 'pd_pos', '_under',
                 'ns._dotted', 'cowrapped', 'js_draft4', 'window', 'mutate', 'broken.vm', 'odd_defaults', 'tc_only',
-                'pd_strip', 'view.cm', 'view.sm', 'cnt.bump', 'pd_even', 'js_list', 'ctxm_plain', 'pd_span', 'view.note', 'pd_asis', 'rpc.ping')
+                'pd_strip', 'view.cm', 'view.sm', 'cnt.bump', 'pd_even', 'js_list', 'ctxm_plain', 'pd_span', 'view.note', 'pd_asis', 'rpc.ping', 'js_ref')
 
 
 def build_registry(log: Log, coroutines: bool) -> 'pjrpc.server.MethodRegistry':
